@@ -181,9 +181,10 @@ func c18Replay(c *Ctx, raw stdjson.RawMessage) {
 }
 
 func c18Allocs(c *Ctx, s string) {
-	n := testing.AllocsPerRun(3, func() {
-		iso8601.Valid(s, iso8601.Flexible)
-		iso8601.Valid(s, iso8601.Strict)
+	n := testing.AllocsPerRun(2, func() {
+		for fl := 0; fl < 64; fl++ { // every subset of the flags
+			iso8601.Valid(s, iso8601.ValidFlags(fl))
+		}
 	})
 	c.Eval(1)
 	if n != 0 {
@@ -269,6 +270,24 @@ func c18Extra(c *Ctx) {
 	for _, s := range []string{"2021-03-25T21:36:12.123456789Z", "2021-03-25", "2021-03-25 21:36:12 +0130", "", "garbage",
 		"2021-03-25T21:36:12.1234567890Z", strings.Repeat("9", 300), "2021-03-25T21:36:12+01:3"} {
 		c18Allocs(c, s)
+	}
+	// every combination of the optional parts, short and long (beyond any small-buffer size), well formed or cut short or
+	// followed by garbage
+	for _, sep := range []string{"T", " ", "t", "_"} {
+		for _, tm := range []string{"", "21:36:12", "24:00:00"} {
+			for _, fr := range []string{"", ".1", ".1234567", ".123456789", ".1234567891"} {
+				for _, zone := range []string{"", "Z", "+07:00", "-0700", " +07:00", " -0700", "+07"} {
+					s := "2021-03-25"
+					if tm != "" {
+						s += sep + tm + fr
+					}
+					s += zone
+					c18Allocs(c, s)
+					c18Allocs(c, s+strings.Repeat("x", 40))
+					c18Allocs(c, s[:len(s)-1])
+				}
+			}
+		}
 	}
 }
 
